@@ -422,7 +422,11 @@ func c09Verify(c *core.Ctx, e *c09Ev, st *c09Stats) bool {
 	}
 	f := c09Format(&e.Cfg)
 	tm := c09TableMap(e.Cols)
-	event := replication.NewMysql56BinlogEvent(e.bytes)
+	// the library's reader hands every event over in a buffer of exactly its
+	// size (capacity = length): a read past the end must not find spare bytes
+	exact := make([]byte, len(e.bytes))
+	copy(exact, e.bytes)
+	event := replication.NewMysql56BinlogEvent(exact)
 	ncols := len(e.Cols)
 	kind := c09KindNames[e.Kind]
 
